@@ -579,6 +579,17 @@ def fam_c18_logos(R, n):
             src = enum(['#[logos(%s)]' % ', '.join(perm)], ['#[regex("[a-z]+")] Id,', '#[token("=")] Eq,'])
             out.append(dict(family='c18-logos', src=src, meta=dict(group=gid, perm=list(perm))))
         gid += 1
+    # three or four skip items matching the same text with different (and partly equal) priorities: the order of the items is the
+    # order of the leaves, which no decision may depend on (the winner and the ambiguity verdict of a DFA state)
+    for its in [['skip("[ ]", priority = 1)', 'skip("[ \\t]", priority = 1)', 'skip("\\s", priority = 3)'],
+                ['skip("a", priority = 2)', 'skip("[ab]", priority = 5)', 'skip("[a-c]", priority = 2)'],
+                ['skip("x+", priority = 3)', 'skip("x", priority = 1)', 'skip("xx?", priority = 2)'],
+                ['skip("y", priority = 4)', 'skip("y|z", priority = 4)', 'skip("[yw]", priority = 1)'],
+                ['skip("q", priority = 1)', 'skip("[qr]", priority = 1)', 'skip("[q-s]", priority = 2)', 'skip("[q-t]", priority = 7)']]:
+        for perm in itertools.permutations(its):
+            src = enum(['#[logos(%s)]' % ', '.join(perm)], ['#[regex("[0-9]+")] Num,', '#[token("=")] Eq,'])
+            out.append(dict(family='c18-logos-overlap', src=src, meta=dict(group=gid, perm=list(perm))))
+        gid += 1
     for i in range(n):
         k = R.choice([2, 3, 3, 4])
         items = R.sample(LOGOS_ITEMS, k)
@@ -719,6 +730,10 @@ def fam_c19(R, n_random):
     add(enum([], ['#[token("")] A,']), 'reject', 'empty')
     for p in ['(?-u:\\b)a', '^a', '(?m:^)a', '(?-u:\\B)a', '\\ba', 'a|^b', '$', '(?-u:\\b)', 'a*$']:
         add(enum([], ['#[regex(%s)] A,' % rust_str(p)]), 'reject', None, 'look-behind at token start')
+    # ... reached only through something optional (regex-syntax's prefix look set stops at the first item that can be non-empty)
+    for p in ['(?-u)-?\\b[0-9]+', '(?:x|)^a', 'a?(?-u:\\B)b', '(?:-|\\+)?(?m:^)x', '[ ]*(?-u:\\b)w', '(?:a|(?-u:\\b))b', 'x{0,2}^y', '(?-u)(?:ab)*\\bc', '(?-u)q??\\b{start}r']:
+        add(enum([], ['#[regex(%s)] A,' % rust_str(p)]), 'reject', None, 'look-behind at token start behind an optional prefix')
+        add(enum([], ['#[regex(%s)] A,' % rust_str(p), '#[token("zz")] Z,']), 'reject', None, 'look-behind at token start behind an optional prefix, second leaf')
     for p in ['(?=a)b', 'a(?!b)', '(a)\\1', '(?<=a)b', '\\p{Nope}', '(?P<n>a)(?P=n)']:
         add(enum([], ['#[regex(%s)] A,' % rust_str(p)]), 'reject', None, 'unsupported regex feature')
     # Unicode word-boundary assertions (every kind, after / between / in a subpattern / in a skip): the DFA cannot implement them
